@@ -141,6 +141,9 @@ func (fr *Frame) call(site ssa.Instruction, c *ssa.CallCommon, st *State, reach 
 	// 2. contracts
 	if k := vc.DB.Funcs[ce.name]; k != nil && !(k == fr.spec && false) {
 		vc.CalleesUsed[ce.name] = "contract(" + k.Kind + ")"
+		if k.Trusted {
+			vc.CalleesUsed[ce.name] = "contract(trusted, body not verified)"
+		}
 		return fr.applyContract(site, k, ce, c, st, reach)
 	}
 	if ce.iface != "" {
@@ -832,6 +835,12 @@ func (vc *VC) modsOfCall(x ssa.CallInstruction, ms *modSet, depth int, fr *Frame
 	if fn != nil {
 		name = calleeName(fn)
 	}
+	if name == "" && !c.IsInvoke() {
+		name = "dynamic:" + typeKey(c.Value.Type())
+		if vc.DB.Funcs[name] == nil {
+			name = ""
+		}
+	}
 	if name == "" {
 		ms.all = true
 		return
@@ -859,7 +868,7 @@ func (vc *VC) modsOfCall(x ssa.CallInstruction, ms *modSet, depth int, fr *Frame
 			return
 		}
 		for _, m := range k.Modifies {
-			vs, ok := vc.modVarsOfExpr(m, fn, k)
+			vs, ok := vc.modVarsOfExpr(m, fn, k, c.Signature())
 			if !ok {
 				ms.all = true
 				return
